@@ -12,6 +12,11 @@ partial def loop {σ : Type} (h : Handler σ) (inp : IO.FS.Stream) (out : IO.FS.
   if line.isEmpty then return ()
   let line := (line.dropEndWhile (fun c => c == '\n' || c == '\r')).toString
   let op := opPart line
+  -- `abort …` lines are written by the harness when the implementation died or hung inside a case:
+  -- no model result can match them
+  if op.startsWith "abort " then
+    out.putStrLn (op ++ " => never")
+    return (← loop h inp out s)
   let (s', r) := h.step s op
   match r with
   | some res => out.putStrLn (op ++ " => " ++ res)
